@@ -563,6 +563,9 @@ class TSeq(TObj):
             "all": Intrinsic("all", lambda it, a, k, n, f: all(bool(v) for v in vals)),
             "tolist": Intrinsic("tolist", lambda it, a, k, n, f: list(vals)),
             "diff": Intrinsic("diff", lambda it, a, k, n, f: TSeq([b - a_ for a_, b in zip(vals[:-1], vals[1:])])),
+            "__len__": Intrinsic("len", lambda it, a, k, n, f: Fraction(len(vals))),
+            "min": Intrinsic("min", lambda it, a, k, n, f: min(vals)),
+            "max": Intrinsic("max", lambda it, a, k, n, f: max(vals)),
         })
 
     def sim_iter(self):
